@@ -53,6 +53,8 @@ def main():
             pkgline = re.search(r'^package\s+(\w+)', open(d).read(), re.M).group(1)
             base = pkgline[:-5] if pkgline.endswith('_test') else pkgline
             cand = ['.'] if base == 'errors' else [base, 'grpc/' + base, '.']
+            if base != 'errors' and not any(os.path.isdir(os.path.join(wt, c)) for c in cand[:2]):
+                os.makedirs(os.path.join(wt, base))   # a demo that wants a package directory of its own
             placed = None
             for c in cand:
                 if os.path.isdir(os.path.join(wt, c)):
